@@ -45,7 +45,8 @@ def parseInput (j : Json) : RunInput :=
     outcome := listFn ((jstrs j "outcome").map parseOutcome)
     argsOk := boolsOf j "argsOk" true
     calcRes := listFn ((jarr j "calcRes").map parseCalcRes)
-    hasTeardown := boolsOf j "teardown" false }
+    hasTeardown := boolsOf j "teardown" false
+    noAct := boolsOf j "noAct" false }
 
 def failKindStr : FailKind → String
   | .unmet => "unmet" | .depErr => "deperr" | .failed => "failed" | .error => "error"
@@ -63,7 +64,7 @@ def evJson : Ev → Json
   | .complete => mkArr [Json.str "complete"]
   | .start n w => mkArr [Json.str "start", toJson n, toJson w]
   | .fin n w => mkArr [Json.str "end", toJson n, toJson w]
-  | .go n => mkArr [Json.str "go", toJson n]
+  | .go n ds => mkArr [Json.str "go", toJson n, ofNats ds]
 
 def parseEv (j : Json) : Option Ev :=
   match asArr j with
@@ -94,17 +95,17 @@ def isWorkerEv : Ev → Bool
 abbrev Rem := List Ev × List Ev
 
 /-- consume the events a step emitted (oldest first); `dual`: worker events come from the second stream -/
-def consume (dual : Bool) : Rem → List Ev → Option Rem
+def consume (inp : RunInput) (dual : Bool) : Rem → List Ev → Option Rem
   | r, [] => some r
-  | r, .go _ :: es => consume dual r es
   | (m, w), e :: es =>
-    if dual && isWorkerEv e then
+    if hidden inp e then consume inp dual (m, w) es
+    else if dual && isWorkerEv e then
       match w with
-      | o :: w' => if o = e then consume dual (m, w') es else none
+      | o :: w' => if o = e then consume inp dual (m, w') es else none
       | [] => none
     else
       match m with
-      | o :: m' => if o = e then consume dual (m', w) es else none
+      | o :: m' => if o = e then consume inp dual (m', w) es else none
       | [] => none
 
 partial def permsOf : List Nat → List (List Nat)
@@ -151,6 +152,14 @@ def lowestIdle (s : Sys) : Nat → Option Nat
     | some w => some w
     | none => if s.workers k = .idle then some k else none
 
+def runningNoAct (inp : RunInput) (s : Sys) : Nat → Option Nat
+  | 0 => none
+  | k + 1 => match runningNoAct inp s k with
+    | some w => some w
+    | none => match s.workers k with
+      | .running n => if inp.noAct n then some k else none
+      | _ => none
+
 /-- the worker move that would emit the next observed worker event -/
 def nextWorkerMove (dual : Bool) (r : Rem) : Option Choice :=
   let look (es : List Ev) : Option Choice :=
@@ -180,32 +189,46 @@ partial def search (inp : RunInput) (dual : Bool) (total : Nat) (wantExit : Nat)
     | none => pure ()
     | some s' =>
       let em := emitted s s'
-      match consume dual r em with
+      match consume inp dual r em with
       | some r' =>
         mainBlocked := false
         let (v, b') := search inp dual total wantExit wantDeadlock s' r' b
         b := b'
         if v ≠ .rejected then return (v, b)
       | none =>
-        mainExpected := (em.filter fun e => match e with | .go _ => false | _ => true) :: mainExpected
+        mainExpected := (em.filter fun e => !hidden inp e) :: mainExpected
   if !mainBlocked then return (.rejected, b)     -- main could move (all orders tried) and none led to acceptance
-  -- 2. silent worker moves: JobHold / None
+  -- 2. silent worker moves: JobHold / None pick-ups, tasks without actions
   if inp.runner ≠ .serial then
-    match s.jobQ with
-    | .hold :: _ | .stop :: _ =>
+    match runningNoAct inp s s.nStarted with
+    | some w =>
+      match stepF s (.done w) with
+      | some s' =>
+        match consume inp dual r (emitted s s') with
+        | some r' => return search inp dual total wantExit wantDeadlock s' r' b
+        | none => pure ()
+      | none => pure ()
+    | none => pure ()
+    let eager : Bool := match s.jobQ with
+      | .hold :: _ | .stop :: _ => true
+      | .task n :: _ => inp.noAct n
+      | [] => false
+    if eager then
       match lowestIdle s s.nStarted with
       | some w =>
         match stepF s (.take w) with
-        | some s' => return search inp dual total wantExit wantDeadlock s' r b
+        | some s' =>
+          match consume inp dual r (emitted s s') with
+          | some r' => return search inp dual total wantExit wantDeadlock s' r' b
+          | none => pure ()
         | none => pure ()
       | none => pure ()
-    | _ => pure ()
     -- 3. the worker move demanded by the next observed worker event
     match nextWorkerMove dual r with
     | some c =>
       match stepF s c with
       | some s' =>
-        match consume dual r (emitted s s') with
+        match consume inp dual r (emitted s s') with
         | some r' => return search inp dual total wantExit wantDeadlock s' r' b
         | none => pure ()
       | none => pure ()
@@ -274,7 +297,7 @@ def handle (j : Json) : Json :=
   match jstr j "op" with
   | "simulate" =>
     let s := simulate inp (init inp) 100000
-    Json.mkObj [("trace", mkArr ((trace s).map evJson)), ("exit", toJson (exitCode s)),
+    Json.mkObj [("trace", mkArr ((trace inp s).map evJson)), ("exit", toJson (exitCode s)),
                 ("halted", Json.bool (s.rpc = .halted))]
   | _ =>
     match (jarr j "trace").mapM parseEv with
